@@ -34,7 +34,7 @@ echo "   exit $D1"
 RES=""
 for C in $CHECKS; do
   echo "== ./check $C against the changed tree"
-  (cd /verif && VERIF_REPO=$WT VERIF_EVIDENCE_DIR=/verif/work/mut_evidence ./check $C --tier quick > $OUT/check_$C.log 2>&1; echo $? > $OUT/check_$C.rc)
+  (cd /verif && VERIF_REPO=$WT VERIF_EVIDENCE_DIR=/verif/work/mut_evidence flock /verif/work/alt.lock ./check $C --tier quick > $OUT/check_$C.log 2>&1; echo $? > $OUT/check_$C.rc)
   RC=$(cat $OUT/check_$C.rc)
   grep -E "^(VIOLATION|RESULT|INCONCLUSIVE)" $OUT/check_$C.log | head -4
   grep -E "^  (role|what)" $OUT/check_$C.log | head -4
